@@ -120,6 +120,9 @@ func stateDescriptionTextBegin(s *Scanner, c byte) *jerr.JApiError {
 }
 
 func stateDescriptionTextBracketsInner(s *Scanner, c byte) *jerr.JApiError {
+	if c == EOF {
+		return s.japiErrorUnexpectedChar("in the parenthesized description", "closing parenthesis")
+	}
 	if IsNewLine(c) {
 		s.step = stateDescriptionTextBracketsInnerNewLine
 	}
@@ -128,6 +131,8 @@ func stateDescriptionTextBracketsInner(s *Scanner, c byte) *jerr.JApiError {
 
 func stateDescriptionTextBracketsInnerNewLine(s *Scanner, c byte) *jerr.JApiError {
 	switch c {
+	case EOF:
+		return s.japiErrorUnexpectedChar("in the parenthesized description", "closing parenthesis")
 	case caseWhitespace(c), caseNewLine(c):
 		return nil
 	case ContextCloseSign:
